@@ -275,6 +275,31 @@ func runLookup(r *report.Run, c *LookupCase) (f *report.Failure) {
 				return report.Failf("VerifySignature/accepts-other-version", "schedule %v: a %s block at epoch %d signed under the %s version verifies", c.Epochs, forkNames[wantFork], e, forkNames[i])
 			}
 		}
+		// the versioned form (what block processing calls with the STATE's current version, which under a
+		// vector-style configuration need not be the version the schedule gives the slot): for every version v,
+		// an envelope carrying v's digest and a signature under v verifies with v, a signature under another
+		// version does not, and v's digest is required
+		for i := 0; i < 7; i++ {
+			v := ver(c.Versions[i])
+			envV := *env
+			envV.ForkDigest = common.ForkDigest(sp.ComputeForkDigest(v, gvr))
+			envV.Signature = common.BLSSignature(sign(v))
+			if !envV.VerifySignatureVersioned(spec, common.Version(v), common.Root(gvr), common.ValidatorIndex(proposer), cached) {
+				return report.Failf("VerifySignatureVersioned/rejects-requested-version", "schedule %v: a %s block at epoch %d whose digest and signature are those of the %s version does not verify when that version is the one asked for", c.Epochs, forkNames[wantFork], e, forkNames[i])
+			}
+			w := ver(c.Versions[(i+1)%7])
+			envW := envV
+			envW.Signature = common.BLSSignature(sign(w))
+			if envW.VerifySignatureVersioned(spec, common.Version(v), common.Root(gvr), common.ValidatorIndex(proposer), cached) {
+				return report.Failf("VerifySignatureVersioned/accepts-other-version", "schedule %v: asked for the %s version, a signature under the %s version verifies", c.Epochs, forkNames[i], forkNames[(i+1)%7])
+			}
+			envD := envV
+			envD.ForkDigest = common.ForkDigest(sp.ComputeForkDigest(w, gvr))
+			if envD.VerifySignatureVersioned(spec, common.Version(v), common.Root(gvr), common.ValidatorIndex(proposer), cached) {
+				return report.Failf("VerifySignatureVersioned/accepts-other-digest", "schedule %v: asked for the %s version, an envelope carrying the %s digest verifies", c.Epochs, forkNames[i], forkNames[(i+1)%7])
+			}
+		}
+		r.Class("versioned-signature-check:7-versions")
 		// wrong proposer index is refused
 		if env.VerifySignature(spec, common.Root(gvr), common.ValidatorIndex(proposer+1), cached) {
 			return report.Failf("VerifySignature/accepts-other-proposer", "envelope verifies for another proposer index")
